@@ -8,7 +8,7 @@ from hypothesis import strategies as st
 from ..common import CaseInfo, Violation, classify_exception
 from ..oracles import Analysis
 from ..simharness import IndexMarket, Market, run_case
-from ..strategies import crossing_pair, program_strategy, spec_strategy
+from ..strategies import market_names, crossing_pair, program_strategy, spec_strategy
 from ._sim_common import frac, summarize
 
 warnings.simplefilter("ignore")
@@ -22,7 +22,10 @@ RULE = ("(sim) Hypothesis generates 2-4 component markets with unequal outstandi
         "after each clock advance (before any shock of the step) the index market's fundamental price for the new time equals "
         "the same weighted average of the components' fundamentals. Non-trivial = unequal shares and component prices that "
         "differ from each other at some time. (setup) an index over a repeated component, or over a component without "
-        "outstandingShares, must be refused at setup.")
+        "outstandingShares, must be refused at setup. In two cases of five the index entry also carries a spot market's fundamental settings "
+        "(own keys or through 'extends' of a component), which an index must ignore; market names are prefixes / case variants of one another in three cases of four. "
+        "(regrow) registrations after setup through _add_market / _add_markets, some refused (duplicate, no shares): the component list equals the accepted registrations "
+        "and get_index / compute_market_index / recorded and computed fundamental index equal the weighted average over exactly those, at every time of a short run; non-trivial = >=1 refused registration.")
 ASSUMPTIONS = ["a component's fundamental may be shocked later in the same step; the index fundamental is compared before that happens"]
 
 OPTS = {"fundamentals": True}
@@ -31,7 +34,7 @@ OPTS = {"fundamentals": True}
 @st.composite
 def cases(draw, tier):
     nm = draw(st.integers(2, 4))
-    names = [f"M{i}" for i in range(nm)]
+    names = market_names(draw, nm)
     cfg = {"simulation": {"markets": list(names) + ["IDX"], "agents": ["A0"], "sessions": []}}
     for n in names:
         cfg[n] = {"class": "Market", "tickSize": draw(st.sampled_from([1.0, 0.5, 0.01])), "marketPrice": draw(st.sampled_from([100.0, 250.0, 999.5, 13.0])),
@@ -40,6 +43,14 @@ def cases(draw, tier):
     k = draw(st.integers(2, nm))
     comps = draw(st.permutations(names))[:k]
     cfg["IDX"] = {"class": "IndexMarket", "tickSize": draw(st.sampled_from([1.0, 0.01])), "marketPrice": draw(st.sampled_from([100.0, 300.0])), "markets": list(comps)}
+    extra = draw(st.sampled_from(["none", "none", "none", "own_keys", "extends"]))
+    if extra == "own_keys":
+        # settings of a spot market's fundamental process on the index entry: an index has no process of its own
+        cfg["IDX"].update({"fundamentalVolatility": draw(st.sampled_from([0.0, 0.03])), "fundamentalDrift": draw(st.sampled_from([0.0, 0.01])),
+                           "fundamentalPrice": draw(st.sampled_from([50.0, 300.0]))})
+    elif extra == "extends":
+        # the index entry reuses a spot template (tick size, fundamental settings, shares) through "extends"
+        cfg["IDX"]["extends"] = draw(st.sampled_from(names))
     spec = spec_strategy(offs=[-4, -2, -1, 0, 1, 2, 4], n_mi=nm + 1, own_cancel=False)
     cfg["A0"] = {"class": "VScriptedAgent", "numAgents": draw(st.integers(2, 5)), "markets": list(names) + ["IDX"], "assetVolume": 10, "cashAmount": 1000,
                  "scripts": draw(st.lists(program_strategy(spec, max_actions=5, decline_weight=0), min_size=1, max_size=3))}
@@ -144,9 +155,83 @@ def setup_check(case):
     return CaseInfo(nontrivial=True, classes=["ok"], sample=case)
 
 
+@st.composite
+def regrow_cases(draw, tier):
+    n = draw(st.integers(2, 5))
+    return {"n": n, "shares": [draw(st.one_of(st.none(), st.integers(1, 10**6))) if i >= 2 else draw(st.integers(1, 10**6)) for i in range(n)],
+            "prices": [draw(st.sampled_from([50.0, 100.0, 333.0, 1000.5])) for _ in range(n)],
+            "fund": [draw(st.sampled_from([40.0, 100.0, 700.25])) for _ in range(n)],
+            "drift": [draw(st.sampled_from([0.0, 0.01, -0.02])) for _ in range(n)],
+            "initial": draw(st.integers(1, 2)),
+            "adds": draw(st.lists(st.tuples(st.booleans(), st.lists(st.integers(0, n - 1), min_size=1, max_size=3)), min_size=1, max_size=5)),
+            "steps": draw(st.integers(1, 4))}
+
+
+def regrow_check(case):
+    """component registrations after setup, some of them refused (a component twice, a market without shares): the index keeps
+    averaging exactly the accepted components."""
+    import math
+    sim = Simulator(prng=random.Random(0))
+    n = case["n"]
+    mk = []
+    for i in range(n):
+        m = Market(market_id=i, prng=random.Random(i), simulator=sim, name=f"M{i}")
+        s_ = {"tickSize": 1.0, "marketPrice": case["prices"][i], "fundamentalPrice": case["fund"][i]}
+        if case["shares"][i] is not None:
+            s_["outstandingShares"] = case["shares"][i]
+        m.setup(s_)
+        sim._add_market(m)
+        sim.fundamentals.add_market(market_id=i, initial=case["fund"][i], drift=case["drift"][i], volatility=0.0)
+        mk.append(m)
+    idx = IndexMarket(market_id=n, prng=random.Random(9), simulator=sim, name="IDX")
+    idx.setup({"tickSize": 1.0, "marketPrice": 100.0, "markets": [m.name for m in mk[:case["initial"]]]})
+    sim._add_market(idx)
+    accepted = list(range(case["initial"]))
+    refused = grown = 0
+    for bulk, ids in case["adds"]:
+        if bulk:
+            # _add_markets registers one by one: the valid prefix of the list is kept, the first invalid entry raises
+            try:
+                idx._add_markets([mk[i] for i in ids])
+            except (ValueError, AssertionError):
+                refused += 1
+            for i in ids:
+                if i in accepted or case["shares"][i] is None:
+                    break
+                accepted.append(i)
+                grown += 1
+        else:
+            i = ids[0]
+            ok = i not in accepted and case["shares"][i] is not None
+            try:
+                idx._add_market(mk[i])
+                if not ok:
+                    raise Violation("C17.setup_accepts_invalid_components", f"market {i} accepted as a component (components so far {accepted}, shares {case['shares'][i]})")
+                accepted.append(i)
+                grown += 1
+            except (ValueError, AssertionError):
+                if ok:
+                    raise Violation("C17.setup_refuses_valid", f"market {i} with shares {case['shares'][i]} refused (components so far {accepted})")
+                refused += 1
+        if [c.market_id for c in idx.get_components()] != accepted:
+            raise Violation("C17.components", f"components {[c.market_id for c in idx.get_components()]}, accepted registrations {accepted}")
+    tot = sum(case["shares"][i] for i in accepted)
+    for t in range(case["steps"] + 1):
+        sim._update_times_on_markets(sim.markets)
+        want_f = sum(mk[i].get_fundamental_price(t) * case["shares"][i] for i in accepted) / tot
+        want_p = sum(mk[i].get_market_price(t) * case["shares"][i] for i in accepted) / tot
+        for nm, got, want in (("get_index", idx.get_index(t), want_p), ("compute_market_index", idx.compute_market_index(t), want_p),
+                              ("recorded fundamental", idx.get_fundamental_price(t), want_f), ("compute_fundamental_index", idx.compute_fundamental_index(t), want_f)):
+            if not math.isclose(got, want, rel_tol=1e-12):
+                raise Violation("C17.weighted_average", f"{nm} at time {t} is {got!r}, share-weighted average of the components {accepted} is {want!r} "
+                                                         f"({refused} refused and {grown} accepted registrations after setup)")
+    return CaseInfo(nontrivial=refused > 0, classes=(["refused"] if refused else []) + (["grown"] if grown else []), steps=len(case["adds"]), sample=case)
+
+
 PARTS = {
     "sim": {"check": check_case, "strategy": cases, "budget": {"quick": 3000, "thorough": 40000}},
     "setup": {"check": setup_check, "strategy": lambda tier: setup_cases, "budget": {"quick": 300, "thorough": 3000}},
+    "regrow": {"check": regrow_check, "strategy": regrow_cases, "budget": {"quick": 1000, "thorough": 20000}},
 }
 
 
